@@ -364,7 +364,7 @@ def r7_3(F, R):
             if again is not None:
                 R.violation("R7.3", nm + "/push-then-continue", "%s keeps skipping or pushes again after pushing a branch" % fn.name, fn.loc(fn.blocks[pb]["t"]))
     # the closure built by build_if_command
-    clo = _one(F, MOD + "Condition::build_if_command::{closure#0}")
+    clo = _primitive_of(F, _one(F, MOD + "Condition::build_if_command"))
     ev = [bi for bi, t in clo.calls() if (callee_generic(t) or "").endswith("Condition::evaluate")]
     tc = [bi for bi, t in clo.calls() if (callee_generic(t) or "") == MOD + "true_case"]
     fc = [bi for bi, t in clo.calls() if (callee_generic(t) or "") == MOD + "false_case"]
@@ -385,6 +385,39 @@ def r7_3(F, R):
         R.ok("R7.3", "if-closure", "evaluate, then true => true_case / false => false_case", "%s:%d" % (clo.file, clo.line), how="edt")
     else:
         R.violation("R7.3", "if-closure", "the closure built by build_if_command must evaluate the condition once and call true_case on true, false_case on false", "%s:%d" % (clo.file, clo.line))
+
+
+def _primitive_of(F, builder):
+    """the function a builder hands to BuiltIn::new_expansion / new_execution: a closure defined in it or a (nested) fn item it references"""
+    cands = []
+    for b in builder.blocks:
+        for st in b["s"]:
+            if st["k"] != "=":
+                continue
+            rv = st["rv"]
+            if rv["k"] == "agg" and rv.get("ak") == "closure":
+                cands.append(rv["closure"])
+            for o in ([rv.get("op")] if rv["k"] in ("use", "cast") else []) + (rv.get("ops") or []):
+                if o and o.get("c", {}).get("fn"):
+                    cands.append(o["c"].get("rfn") or o["c"]["fn"])
+        t = b["t"]
+        if t["k"] == "call":
+            for a in t["args"]:
+                if a.get("c", {}).get("fn"):
+                    cands.append(a["c"].get("rfn") or a["c"]["fn"])
+    out = []
+    for c in cands:
+        f = F.fns.get(c)
+        if f is None:
+            m = [g for g in F.fns.values() if strip_generics(g.name) == strip_generics(c) or g.name == c]
+            f = m[0] if len(m) == 1 else None
+        if f is not None and (f.name.startswith(builder.name + "::") or f.file == builder.file) and f not in out:
+            out.append(f)
+    # keep the ones with the primitive signature (token, input)
+    out = [f for f in out if f.argc == (3 if "{closure" in f.name.split("::")[-1] else 2)]
+    if len(out) != 1:
+        raise AnchorError("cannot identify the primitive function built by %s (%d candidates)" % (builder.name, len(out)))
+    return out[0]
 
 
 def _bool_arms(fn):
